@@ -141,3 +141,36 @@ def block_fold_def(b):
         'term_def': term_block(b) == term_prefix(b, n),
         'gen_def': forall_keys('NamedId', lambda k: gen_block(b, k) == gen_prefix(b, n, k)),
     }
+
+
+# -- reachability rules: can_complete(stmt, entry)
+
+def cc_stmt(s, entry):
+    """THE RULES: can a statement complete normally, given whether its entry is reachable"""
+    n = cls_name(s)
+    if n == 'Assign' or n in SIMPLE_STMTS:
+        return entry
+    if n in NO_SURVIVOR_STMTS:                      # if1 / while / for: entry or body
+        return entry or cc_block(s.body, entry)
+    if n == 'IfStmt':
+        return cc_block(s.ift, entry) or cc_block(s.iff, entry)
+    if n == 'ContextStmt':
+        return cc_block(s.body, entry)
+    if n == 'ReturnStmt':
+        return False
+    return ghost_pred('cc_stmt', s, entry)
+
+
+def cc_prefix(b, i, entry):
+    return ghost_pred('cc_prefix', b, i, entry)
+
+
+def cc_fold_def(b, e):
+    """DEFINITION of cc_block as the fold of cc_stmt over b.stmts, for entry flag e (assumed as axioms)"""
+    n = seq_len(b.stmts)
+    return {
+        'cc0': cc_prefix(b, 0, e) == e,
+        'cc_step': forall_ints(lambda i: implies(0 <= i and i < n,
+                               cc_prefix(b, i + 1, e) == cc_stmt(seq_at(b.stmts, i), cc_prefix(b, i, e)))),
+        'cc_def': cc_block(b, e) == cc_prefix(b, n, e),
+    }
